@@ -1,7 +1,7 @@
 """C14 - mapping engine state machine and time-outs."""
 from props.base import *
 NEEDS_VIEW = True     # reads the public fields of the automata objects
-COQ_TARGETS = ['props/Properties_C14.vo']
+COQ_TARGETS = ['props/Properties_C14.vo', 'props/Properties_C14h.vo']
 EXPECT_KEYS = {'map'}
 RULE = ('exhaustive single steps: 3 states x inputs -128..255 x elapsed {0, t-1, t, t+1, 10t} (t = the state\'s time-out, 7 for the idle state), '
         'plus random event/advance/tick sequences with the 30 s inactivity deadline; counted per distinct (state, input, timed-out?) observed')
